@@ -109,6 +109,13 @@ Section Retr.
         intros En. destruct nx'; [cbn in Hl'; discriminate | discriminate].
   Qed.
 
+  Lemma PInv_clean acc : forall lvl, Forall (fun dn : Z * Z => snd dn = 0) acc -> PInv lvl 0 acc.
+  Proof.
+    induction acc as [|[d num] next IH]; intros lvl Hc; cbn [PInv]; [exact I|].
+    inversion Hc as [|? ? H1 H2]; subst. cbn [snd] in H1. rewrite Z.mod_0_l by lia.
+    split; [exact H1|]. split; [intros; lia|]. split; [intros; lia|]. change (0 / 2) with 0. apply IH; exact H2.
+  Qed.
+
   Lemma PInv_init n lvl : PInv lvl 0 (repeat (0, 0) n).
   Proof.
     revert lvl; induction n as [|n IH]; intros lvl; cbn [repeat PInv]; [exact I|].
@@ -230,4 +237,131 @@ Proof.
   unfold acc in *. cbn [app length] in Er. cbn [length].
   match goal with |- match ?X with _ => _ end = _ => replace X with (Some res) by (symmetry; exact Er) end.
   f_equal. apply Hg. lia.
+Qed.
+
+(* ------------------------------------------------------------------------------------------------ *)
+(** * Histories: one retriever object through any number of rounds *)
+
+Lemma add_core_length k off acc : forall lvl a acc', add_core k off lvl a acc = Some acc' -> length acc' = length acc.
+Proof.
+  induction acc as [|[d num] next IH]; intros lvl a acc' H; cbn [add_core] in H; [discriminate|].
+  destruct (num =? 0); [injection H as <-; reflexivity|].
+  destruct (kbit k (lvl + off)) as [bit|]; [|discriminate].
+  destruct next as [|x nx]; [injection H as <-; reflexivity|].
+  destruct (add_core k off (lvl + 1) (if bit then a else d) (x :: nx)) as [nx'|] eqn:E; [|discriminate].
+  injection H as <-. cbn [length]. f_equal. apply (IH _ _ _ E).
+Qed.
+
+Lemma flush_step_length k off acc i acc' : flush_step k off (Some acc) i = Some acc' -> length acc' = length acc.
+Proof.
+  unfold flush_step. destruct (nth_error acc i) as [[d num]|] eqn:En; [|intros H; injection H as <-; reflexivity].
+  destruct (num =? 0); [intros H; injection H as <-; reflexivity|].
+  destruct (add_core k off (Z.of_nat i + 1) d (skipn (S i) acc)) as [nx'|] eqn:E; [|discriminate].
+  intros H; injection H as <-. apply add_core_length in E.
+  assert (Hi : (i < length acc)%nat) by (apply nth_error_Some; congruence).
+  rewrite app_length, firstn_length. cbn [length]. rewrite E, skipn_length. lia.
+Qed.
+
+Lemma flush_fold_length k off l : forall acc acc', fold_left (flush_step k off) l (Some acc) = Some acc' -> length acc' = length acc.
+Proof.
+  induction l as [|i l IH]; intros acc acc' H; cbn [fold_left] in H; [injection H as <-; reflexivity|].
+  destruct (flush_step k off (Some acc) i) as [a1|] eqn:E.
+  - rewrite (IH _ _ H). apply (flush_step_length _ _ _ _ _ E).
+  - exfalso. clear -H. induction l; cbn in H; [discriminate | auto].
+Qed.
+
+Definition r_clean (L : Z) (st : rstate) : Prop :=
+  r_cnt st = 0 /\ Forall (fun dn : Z * Z => snd dn = 0) (r_acc st) /\ Z.of_nat (length (r_acc st)) = L.
+
+Lemma reset_clean L st : Z.of_nat (length (r_acc st)) = L -> r_clean L (r_reset st).
+Proof.
+  intros H. unfold r_clean, r_reset. cbn [r_cnt r_acc]. split; [reflexivity|]. split; [|now rewrite map_length].
+  apply Forall_forall. intros x Hx. apply in_map_iff in Hx as (y & <- & _). reflexivity.
+Qed.
+
+Lemma alloc_clean size : r_clean (retr_nacc size) (r_alloc size).
+Proof.
+  unfold r_clean, r_alloc. cbn [r_cnt r_acc]. split; [reflexivity|]. split.
+  - apply Forall_forall. intros x Hx. apply repeat_spec in Hx. subst. reflexivity.
+  - rewrite repeat_length. unfold retr_nacc. lia.
+Qed.
+
+Lemma r_adds_rstep kw off l : forall acc c,
+  r_adds (bits_of 32 kw) off l (mkR acc c) =
+  option_map (fun p : accs * Z => mkR (fst p) (snd p)) (fold_left (rstep kw off) l (Some (acc, c))).
+Proof.
+  unfold r_adds. induction l as [|a l IH]; intros acc c; [reflexivity|].
+  cbn [fold_left rstep r_add r_acc r_cnt]. unfold r_add. cbn [r_acc r_cnt].
+  destruct (c <? 2 ^ Z.of_nat (length acc)).
+  - destruct (add_core (bits_of 32 kw) off 0 a acc) as [acc'|]; [apply IH|].
+    clear. induction l; cbn; auto.
+  - clear. induction l; cbn; auto.
+Qed.
+
+(* one complete round on a clean retriever: the addressed input comes out and the retriever is clean again *)
+Lemma round_from_clean kw off L data st :
+  0 <= off -> 1 <= L -> off + L <= 32 -> Z.of_nat (length data) <= 2 ^ L ->
+  (kw / 2 ^ off) mod 2 ^ L < Z.of_nat (length data) ->
+  r_clean L st ->
+  exists st', r_round 1 (bits_of 32 kw) off data st = Some (lget data ((kw / 2 ^ off) mod 2 ^ L), st') /\ r_clean L st'.
+Proof.
+  intros Ho HL HoL HN Hidx (Hc & Hz & Hlen). destruct st as [acc c]. cbn [r_cnt r_acc] in *. subst c.
+  assert (Hi0 : 0 <= (kw / 2 ^ off) mod 2 ^ L) by (apply Z.mod_pos_bound; apply pow2_pos'; lia).
+  unfold r_round. change (1 =? 0) with false. cbn iota. rewrite r_adds_rstep.
+  destruct (adds_ok kw off L data Ho HL HoL HN data [] acc eq_refl (PInv_clean kw off L data acc 0 Hz) Hlen) as (acc1 & Ef & HI & Hlen1).
+  cbn [length] in Ef. change (Z.of_nat 0) with 0 in Ef. rewrite Ef. cbn [option_map fst snd]. change (1 =? 1) with true. cbn iota.
+  unfold r_flush. cbn [r_cnt r_acc]. destruct (Z.eqb_spec (Z.of_nat (length data)) 0); [lia|].
+  destruct acc1 as [|x acc1']; [cbn [length] in Hlen1; lia|]. set (acc2 := x :: acc1') in *.
+  unfold flush_loop.
+  assert (F5 : (Z.of_nat (length data) - 1) * 2 ^ 0 < Z.of_nat (length data) <= Z.of_nat (length data) * 2 ^ 0)
+    by (change (2 ^ 0) with 1; lia).
+  assert (F6 : Z.of_nat (length data) <= 2 ^ Z.of_nat (length acc2)) by (rewrite Hlen1; exact HN).
+  destruct (flush_ok kw off L data Ho HL HoL Hidx (length acc1') acc2 [] 0 (Z.of_nat (length data)) eq_refl HI eq_refl
+              ltac:(lia) F5 F6) as (res & Er & Hg).
+  cbn [app length] in Er. unfold acc2 in *. cbn [length] in *.
+  eexists. match goal with |- match ?X with _ => _ end = _ /\ _ => replace X with (Some res) by (symmetry; exact Er) end.
+  split; [do 2 f_equal; apply Hg; lia|].
+  apply reset_clean. cbn [r_acc]. rewrite (flush_fold_length _ _ _ _ _ Er). cbn [length]. exact Hlen1.
+Qed.
+
+(* the round kinds of a history: retrieve (0) on ANY state of the right size, add-all-then-flush (1) on a clean one *)
+Lemma round_ok kind kw off L data st :
+  kind = 0 \/ kind = 1 ->
+  0 <= off -> 1 <= L -> off + L <= 32 -> Z.of_nat (length data) <= 2 ^ L ->
+  (kw / 2 ^ off) mod 2 ^ L < Z.of_nat (length data) ->
+  (if kind =? 0 then Z.of_nat (length (r_acc st)) = L else r_clean L st) ->
+  exists st', r_round kind (bits_of 32 kw) off data st = Some (lget data ((kw / 2 ^ off) mod 2 ^ L), st') /\ r_clean L st'.
+Proof.
+  intros [-> | ->] Ho HL HoL HN Hidx Hst; cbn [Z.eqb] in Hst.
+  - (* retrieve = reset; then the add-all-then-flush round *)
+    destruct (round_from_clean kw off L data (r_reset st) Ho HL HoL HN Hidx (reset_clean L st Hst)) as (st' & E & Hc).
+    exists st'. split; [|exact Hc]. unfold r_round in *. change (0 =? 0) with true. cbn iota. unfold r_retrieve.
+    change (1 =? 0) with false in E. cbn iota in E. destruct (r_adds (bits_of 32 kw) off data (r_reset st)); [exact E | discriminate].
+  - apply round_from_clean; auto.
+Qed.
+
+(* a history of complete rounds *)
+Definition round_admissible (L : Z) (r : Z * Z * Z * list Z) : Prop :=
+  let '(kind, kw, off, data) := r in
+  (kind = 0 \/ kind = 1) /\ 0 <= off /\ off + L <= 32 /\ Z.of_nat (length data) <= 2 ^ L /\
+  (kw / 2 ^ off) mod 2 ^ L < Z.of_nat (length data).
+Definition round_answer (L : Z) (r : Z * Z * Z * list Z) : Z :=
+  let '(kind, kw, off, data) := r in lget data ((kw / 2 ^ off) mod 2 ^ L).
+Definition round_sel (r : Z * Z * Z * list Z) : Z * sel_bits * Z * list Z :=
+  let '(kind, kw, off, data) := r in (kind, bits_of 32 kw, off, data).
+
+Theorem retriever_history : forall (size : Z) (rounds : list (Z * Z * Z * list Z)),
+  Forall (round_admissible (retr_nacc size)) rounds ->
+  forall st, r_clean (retr_nacc size) st ->
+  exists st', r_history (map round_sel rounds) st = Some (map (round_answer (retr_nacc size)) rounds, st') /\
+              r_clean (retr_nacc size) st'.
+Proof.
+  intros size rounds. assert (HL : 1 <= retr_nacc size) by (unfold retr_nacc; lia). set (L := retr_nacc size) in *.
+  induction rounds as [|[[[kind kw] off] data] tl IH]; intros Hall st Hc.
+  - exists st. split; [reflexivity | exact Hc].
+  - inversion Hall as [|? ? Hr Htl]; subst. destruct Hr as (Hk & Ho & HoL & HN & Hidx).
+    destruct (round_ok kind kw off L data st Hk Ho HL HoL HN Hidx) as (st1 & E1 & Hc1).
+    { destruct Hk as [-> | ->]; cbn [Z.eqb]; [exact (proj2 (proj2 Hc)) | exact Hc]. }
+    destruct (IH Htl st1 Hc1) as (st2 & E2 & Hc2).
+    exists st2. split; [|exact Hc2]. cbn [map r_history round_sel round_answer]. rewrite E1, E2. reflexivity.
 Qed.
